@@ -57,16 +57,38 @@ ShareStates(mt) == IF mt = "shares" THEN SharesCls ELSE {"none"}
 RecvOk(fl, mt, lay, sto, shs) ==
     fl = "core" \/ (lay = "rich" /\ shs = "none" /\ sto \in (IF mt = "keys" THEN {"none", "wrong1"} ELSE {"none"}))
 
+(* history family (core assembly): the set's key generation was restarted with other key
+   material.  Every combination (current key material, fresh / stale handler objects) other than
+   (main, fresh) is enumerated for messages of the topic that name a usable set, over the rich
+   database without stored rows. *)
+HistOk(fl, m, lay, sto, shs, ek, hi) ==
+    (ek = "main" /\ hi = "fresh") \/
+    (/\ fl = "core" /\ lay = "rich" /\ sto = "none" /\ shs = "none"
+     /\ m.topicOk /\ m.typeOk /\ m.versionOk /\ m.instOk /\ m.extra = "none"
+     /\ m.set \in {"MemberOk", "RestartOk"})
+
+Opposite(ek) == IF ek = "main" THEN "other" ELSE "main"
+(* the delivery that precedes a "stale" case on the same handler objects: a well-formed message
+   of the same type for the same set under the opposite key material *)
+Warm(x) ==
+    [mt |-> x.m.mt, topicOk |-> TRUE, typeOk |-> TRUE, versionOk |-> TRUE, instOk |-> TRUE, set |-> x.m.set, snd |-> 0,
+     entries |-> <<[r |-> 1, k |-> IF x.recv.eonkey = "main"
+                                   THEN (IF x.m.mt = "shares" THEN "otherEon" ELSE "wrong") ELSE "valid"]>>,
+     extra |-> "none"]
+
 Init ==
     /\ stage = 0
     /\ \E fl \in MCFlavours : \E mt \in MCTypes : \E tp \in BOOLEAN : \E ty \in BOOLEAN : \E ve \in BOOLEAN : \E ins \in BOOLEAN :
        \E set \in Sets : \E snd \in Senders(mt) : \E ex \in Extras :
        \E lay \in Layouts : \E sto \in StoredCls : \E shs \in ShareStates(mt) :
+       \E ek \in {"main", "other"} : \E hi \in {"fresh", "stale"} :
           /\ RecvOk(fl, mt, lay, sto, shs)
           /\ c = [fl   |-> fl,
                   m    |-> [mt |-> mt, topicOk |-> tp, typeOk |-> ty, versionOk |-> ve, instOk |-> ins,
                             set |-> set, snd |-> snd, entries |-> <<>>, extra |-> ex],
-                  recv |-> [layout |-> lay, stored |-> sto, shares |-> shs]]
+                  recv |-> [layout |-> lay, stored |-> sto, shares |-> shs, eonkey |-> ek],
+                  hist |-> hi]
+          /\ HistOk(fl, c.m, lay, sto, shs, ek, hi)
           /\ SDev(fl, c.m) <= MaxDist
 
 Next ==
@@ -81,6 +103,9 @@ Complete == stage = 1
 (* the property layer holds on the outcome the code-shaped layer computes *)
 Design == Complete => DesignHolds(c.fl, c.m, c.recv)
 
-EmitInv == (Emit /\ Complete /\ Dev(c.fl, c.m) <= EmitDist) => PrintT(<<"CASE", ToJson(c)>>)
+EmitInv == (Emit /\ Complete /\ Dev(c.fl, c.m) <= EmitDist) =>
+           PrintT(<<"CASE", ToJson(IF c.hist = "stale"
+                                   THEN [fl |-> c.fl, m |-> c.m, recv |-> c.recv, hist |-> c.hist, warm |-> Warm(c)]
+                                   ELSE c)>>)
 
 =============================================================================
